@@ -387,6 +387,9 @@ func (e *kvElection) becomeLeader(token string, rev uint64) {
 		}
 	}
 
+	// Health failures are counted per term: a new term starts from zero.
+	e.healthFailureCount.Store(0)
+
 	e.isLeader.Store(true)
 	e.leaderID.Store(e.cfg.InstanceID)
 	e.token.Store(token)
